@@ -242,6 +242,9 @@ def misc_cases():
         out.append(('PathInfo', 'Graph', gid))
         for strict in (False, True):
             out.append(('ERO', 'Graph', gid, strict))
+    for ptn in ('Path', 'Graph'):
+        out.append(('PathUnset', 'PathInfo', ptn))
+        out.append(('PathUnset', 'ERO', ptn))
     out.append(('PathSymmetric', 0))
     # maintenance: every state x deadline x expected_end as single entries; pairs of entries; state given as text
     for s in range(4):
@@ -348,6 +351,18 @@ def eval_misc(case):
                     bad('Gateway/accessors', 'gateway/subnet/mac differ after round trip')
                 if not same(before, fields(lab)):
                     bad('Gateway/encode-mutates', 'input labels changed')
+        elif kind == 'PathUnset':
+            # a path value with nothing set is encoded as empty text and read back as absent
+            cls = PathInfo if case[1] == 'PathInfo' else ERO
+            x = cls(PathRepresentationType[case[2]])
+            try:
+                text = x.to_json()
+                if text not in ('', None):
+                    bad(f'{case[1]}/unset-not-empty-text', f'{text!r}')
+                if cls.from_json(text) is not None:
+                    bad(f'{case[1]}/unset-not-absent', f'from_json({text!r}) is not None')
+            except Exception as e:
+                bad(f'{case[1]}/unset-raises', f'encoding a {case[1]} with no payload raised {type(e).__name__}: {e}')
         elif kind in ('PathInfo', 'ERO'):
             ptype = PathRepresentationType[case[1]]
             if kind == 'ERO':
